@@ -60,6 +60,8 @@ static std::string hist_json(const Ctx& c, const Api& a, const std::vector<Call>
     return s + "\"}";
 }
 
+static std::string ev_bits(const Api& a, const CVec& e) { std::string r = " | k=" + str((long) e.size()); for (long i = 0; i < e.size(); i++) { r += " e:" + str(dbits(e[i].real())); if (a.gen) r += " e:" + str(dbits(e[i].imag())); } return r; }
+
 // run one history; evaluate the oracle after every call
 static void run_history(Api& a, const std::vector<Call>& calls, Ctx& c) {
     Out& out = *c.out;
@@ -82,7 +84,7 @@ static void run_history(Api& a, const std::vector<Call>& calls, Ctx& c) {
             continue;
         }
         if (k.kind == 'E') {   // accessors before / between computes
-            if (a.fachash) { a.req += " | E | S"; CVec e0 = a.evals(); a.resp += " | k=" + str((long) e0.size()); for (long i = 0; i < e0.size(); i++) a.resp += " e:" + str(dbits(e0[i].real()));
+            if (a.fachash) { a.req += " | E | S"; CVec e0 = a.evals(); a.resp += ev_bits(a, e0);
                 a.resp += " | info=" + str(a.info()) + " niter=" + str(a.niter()) + " nmatop=" + str(a.nmatop()); }
             if (!computed) {
                 out.count("oracle_precompute");
@@ -105,8 +107,8 @@ static void run_history(Api& a, const std::vector<Call>& calls, Ctx& c) {
         if (a.fachash && !threw) {
             a.resp += " | ret=" + str(r) + " info=" + str(a.info()) + " niter=" + str(a.niter()) + " nmatop=" + str(a.nmatop());
             a.req += " | E | V " + str(a.nev) + " | F";
-            CVec e1 = a.evals(); a.resp += " | k=" + str((long) e1.size()); for (long i = 0; i < e1.size(); i++) a.resp += " e:" + str(dbits(e1[i].real()));
-            CMat X1 = a.evecs(a.nev, false); a.resp += " | rows=" + str(a.n) + " cols=" + str((long) X1.cols()); for (long j = 0; j < X1.cols(); j++) for (long i = 0; i < X1.rows(); i++) a.resp += " " + str(dbits(X1(i, j).real() + 0.0));
+            CVec e1 = a.evals(); a.resp += ev_bits(a, e1);
+            CMat X1 = a.evecs(a.nev, false); a.resp += " | rows=" + str(a.n) + " cols=" + str((long) X1.cols()); for (long j = 0; j < X1.cols(); j++) for (long i = 0; i < X1.rows(); i++) { a.resp += " " + str(dbits(X1(i, j).real() + 0.0)); if (a.gen) a.resp += " " + str(dbits(X1(i, j).imag() + 0.0)); }
             a.resp += " | " + a.fachash();
         }
         if (threw) {
@@ -209,6 +211,10 @@ static std::string herm_header(int variant, int n, int nev, int ncv, double sigm
     const double eps = Spectra::TypeTraits<double>::epsilon(); const double eps23 = std::pow(eps, double(2) / 3); const double near0 = Spectra::TypeTraits<double>::min() * double(10);
     return "herm " + str(variant) + " " + str(n) + " " + str(nev) + " " + str(ncv) + " " + str(dbits(eps23)) + " " + str(dbits(near0)) + " " + str(dbits(eps)) + " " + str(dbits(sigma)) + mat_bits(M);
 }
+static std::string gen_header(int variant, int n, int nev, int ncv, double sigmar, double sigmai, const Mat& M) {
+    const double eps = Spectra::TypeTraits<double>::epsilon(); const double eps23 = std::pow(eps, double(2) / 3); const double near0 = Spectra::TypeTraits<double>::min() * double(10);
+    return "gen " + str(variant) + " " + str(n) + " " + str(nev) + " " + str(ncv) + " " + str(dbits(eps23)) + " " + str(dbits(near0)) + " " + str(dbits(eps)) + " " + str(dbits(sigmar)) + " " + str(dbits(sigmai)) + mat_bits(M);
+}
 static Mat inverse_ld(const Mat& A, double sigma) { MatL M = A.cast<LD>(); for (long i = 0; i < M.rows(); i++) M(i, i) -= (LD) sigma; MatL I = M.partialPivLu().inverse(); return I.cast<double>(); }
 
 // ---- Scalar = float: correspondence only (the same generic Lean model at Float32) ----
@@ -289,20 +295,24 @@ int main(int argc, char** argv) {
         try {
         switch (cls) {
         case 0: { Mat A = gen_sym(r, n, kind, scale); LoopMatOp op(A, log); Spectra::SymEigsSolver<LoopMatOp> s(op, nev, ncv); a.cls = "SymEigsSolver"; common_api(a, s, log); a.resid = pair_std(A, A.norm() + 1e-300);
-                  a.fachash = [&s]() { return SpectraVerifAccess::fachash(SpectraVerifAccess::fac(s)); }; a.req = herm_header(0, n, nev, ncv, 0.0, A);
-                  run_history(a, calls, c); out.corr(a.req, a.resp.size() > 3 ? a.resp.substr(3) : a.resp); break; }
+                  if (ncv <= 16) { a.fachash = [&s]() { return SpectraVerifAccess::fachash(SpectraVerifAccess::fac(s)); }; a.req = herm_header(0, n, nev, ncv, 0.0, A); }
+                  run_history(a, calls, c); if (a.fachash) out.corr(a.req, a.resp.size() > 3 ? a.resp.substr(3) : a.resp); break; }
         case 1: { Mat A = gen_sym(r, n, kind == 4 ? 0 : kind, scale); double sigma = 0.37 * scale * r.sym() * 3; Mat Inv = inverse_ld(A, sigma); LoopMatOp op(Inv, log);
                   Spectra::SymEigsShiftSolver<LoopMatOp> s(op, nev, ncv, sigma); a.cls = "SymEigsShiftSolver"; common_api(a, s, log); a.resid = pair_std(A, A.norm() + std::fabs(sigma) + 1e-300);
-                  a.fachash = [&s]() { return SpectraVerifAccess::fachash(SpectraVerifAccess::fac(s)); }; a.req = herm_header(1, n, nev, ncv, sigma, Inv);
-                  run_history(a, calls, c); out.corr(a.req, a.resp.size() > 3 ? a.resp.substr(3) : a.resp); break; }
+                  if (ncv <= 16) { a.fachash = [&s]() { return SpectraVerifAccess::fachash(SpectraVerifAccess::fac(s)); }; a.req = herm_header(1, n, nev, ncv, sigma, Inv); }
+                  run_history(a, calls, c); if (a.fachash) out.corr(a.req, a.resp.size() > 3 ? a.resp.substr(3) : a.resp); break; }
         case 2: { Mat Re = gen_sym(r, n, kind, scale); Mat Im = gen_general(r, n, 1, scale * 0.3); CMat A = Re.cast<CD>() + CD(0, 1) * Im.cast<CD>(); CntHermProd op(A, log);
                   Spectra::HermEigsSolver<CntHermProd> s(op, nev, ncv); a.cls = "HermEigsSolver"; common_api<decltype(s), false>(a, s, log);
                   a.init = [&s, n](const Vec* v) { if (v) { CVec z = v->cast<CD>(); for (int i = 0; i < n; i++) z[i] += CD(0, 0.5 * (*v)[(i + 1) % n]); s.init(z.data()); } else s.init(); };
                   LD sc = A.norm() + 1e-300; a.resid = [A](CD lam, const CVec& x) { LD an = A.norm(); CVec r = A * x - lam * x; return (LD) r.norm() / ((an + std::abs(lam)) * (LD) x.norm() + 1e-300L); }; (void) sc;
                   run_history(a, calls, c); break; }
-        case 3: { Mat A = gen_general(r, n, kind % 7, scale); LoopMatOp op(A, log); Spectra::GenEigsSolver<LoopMatOp> s(op, nev, ncv); a.cls = "GenEigsSolver"; common_api(a, s, log); a.resid = pair_std(A, A.norm() + 1e-300); run_history(a, calls, c); break; }
+        case 3: { Mat A = gen_general(r, n, kind % 7, scale); LoopMatOp op(A, log); Spectra::GenEigsSolver<LoopMatOp> s(op, nev, ncv); a.cls = "GenEigsSolver"; common_api(a, s, log); a.resid = pair_std(A, A.norm() + 1e-300);
+                  if (ncv <= 16) { a.fachash = [&s]() { return SpectraVerifAccess::fachash(SpectraVerifAccess::fac(s)); }; a.req = gen_header(0, n, nev, ncv, 0.0, 0.0, A); }
+                  run_history(a, calls, c); if (a.fachash) out.corr(a.req, a.resp.size() > 3 ? a.resp.substr(3) : a.resp); break; }
         case 4: { Mat A = gen_general(r, n, (kind % 7 == 5 || kind % 7 == 3) ? 0 : kind % 7, scale); double sigma = 1.7 * scale * (1 + r.unit()); Mat Inv = inverse_ld(A, sigma); LoopMatOp op(Inv, log);
-                  Spectra::GenEigsRealShiftSolver<LoopMatOp> s(op, nev, ncv, sigma); a.cls = "GenEigsRealShiftSolver"; common_api(a, s, log); a.resid = pair_std(A, A.norm() + std::fabs(sigma) + 1e-300); run_history(a, calls, c); break; }
+                  Spectra::GenEigsRealShiftSolver<LoopMatOp> s(op, nev, ncv, sigma); a.cls = "GenEigsRealShiftSolver"; common_api(a, s, log); a.resid = pair_std(A, A.norm() + std::fabs(sigma) + 1e-300);
+                  if (ncv <= 16) { a.fachash = [&s]() { return SpectraVerifAccess::fachash(SpectraVerifAccess::fac(s)); }; a.req = gen_header(1, n, nev, ncv, sigma, 0.0, Inv); }
+                  run_history(a, calls, c); if (a.fachash) out.corr(a.req, a.resp.size() > 3 ? a.resp.substr(3) : a.resp); break; }
         case 5: { Mat A = gen_general(r, n, (kind % 7 == 5 || kind % 7 == 3) ? 0 : kind % 7, scale); double sr = 0.9 * scale * r.sym(), si = 0.4 * scale * (0.2 + r.unit()); CplxShiftOp op(A, log);
                   Spectra::GenEigsComplexShiftSolver<CplxShiftOp> s(op, nev, ncv, sr, si); a.cls = "GenEigsComplexShiftSolver"; common_api(a, s, log); a.resid = pair_std(A, A.norm() + std::fabs(sr) + si + 1e-300); run_history(a, calls, c); break; }
         default: {
@@ -325,7 +335,7 @@ int main(int argc, char** argv) {
                     a.cls = "SymGEigsShiftSolver<Cayley>"; common_api(a, s, log); a.resid = pair_gen(A, B, sc); a.truecount = [&a]() { return a.nmatop(); }; run_history(a, calls, c); }
             }
         } }
-        if (cls <= 1) { Rng rf(args.seed, 55, cs); float_case(rf, out, cls, n, nev, ncv, kind == 3 ? 0 : kind, (scale == 1e-6 || scale == 1e5) ? 1.0 : scale, calls); }
+        if (cls <= 1 && ncv <= 16) { Rng rf(args.seed, 55, cs); float_case(rf, out, cls, n, nev, ncv, kind == 3 ? 0 : kind, (scale == 1e-6 || scale == 1e5) ? 1.0 : scale, calls); }
         } catch (const std::exception& e) { out.count(std::string("case_exception_") + (dynamic_cast<const std::invalid_argument*>(&e) ? "invalid_argument" : "other")); }
     }
     out.finish();
